@@ -400,6 +400,13 @@ def _run(ctx):
             check_case(ctx, pth, v, True)
             ctx.case(nontrivial=False)
         ctx.state("path_x_class", (pth, "typed-number"))
+    # 3c. very long leaves (far beyond any buffer or fast-path size) through every path
+    if ctx.shard == 0:
+        for j, pth in enumerate(paths):
+            big = ("<&>" + "a" * (997 + j)) * (110 + j % 7) + "&"
+            check_case(ctx, pth, big)
+            ctx.case(nontrivial=True, dg=pth + "\0big")
+            ctx.count("very_long_leaves")
     # 4. random hostile strings and numbers
     for _ in range(ctx.budget(3000, 3000000)):
         pth = rng.choice(paths)
